@@ -209,3 +209,175 @@ theorem step_dp (a a' : Dc) (f : ℚ) (hwf : WF a) (hne : a.d ≠ []) (hs : Step
   omega
 
 end C03
+
+namespace C03
+open Num Spec.NumText F64
+
+theorem pow60_le (k : Nat) (hk : k ≤ 60) : (2 : ℚ) ^ k ≤ (10 : ℚ) ^ (19 : Int) := by
+  have : (2 : ℚ) ^ k ≤ (2 : ℚ) ^ 60 := pow_le_pow_right₀ (by norm_num) hk
+  have : (2 : ℚ) ^ 60 ≤ (10 : ℚ) ^ (19 : Int) := by norm_num
+  linarith
+
+/-- one `leftShift` along the true value -/
+theorem one_left (a : Dc) (k : Nat) (hk1 : 1 ≤ k) (hk : k ≤ 60) (hwf : WF a) (hne : a.d ≠ []) (V : ℚ) (K : Int)
+    (h : Follows a V K) (hdp : a.dp ≤ 780) (hmag : 0 ≤ K ∨ 1 / (2 : ℚ) ^ 1064 ≤ dval a) :
+    Follows (leftShift a k) (V * (2 : ℚ) ^ k) (K + k) ∧ StepRes a (leftShift a k) ((2 : ℚ) ^ k) := by
+  have hs := leftShift_floor a k hk1 hk hwf hne
+  refine ⟨?_, hs⟩
+  have hd := step_dp a _ _ hwf hne hs (pow60_le k hk)
+  apply follows_step a _ V K k _ (by rw [zpow_natCast]) h hs (by omega)
+  rcases hmag with h0 | hx
+  · exact Or.inl (by omega)
+  · right
+    have hl := step_lower a _ _ hs
+    obtain ⟨_, _, hpos⟩ := dval_bounds a hwf hne
+    have h2 : (2 : ℚ) ≤ (2 : ℚ) ^ k := by
+      calc (2 : ℚ) = 2 ^ 1 := by norm_num
+        _ ≤ 2 ^ k := pow_le_pow_right₀ (by norm_num) hk1
+    have h3 : dval a ≤ dval a * (2 : ℚ) ^ k / 2 := by nlinarith
+    have h4 : 1 / (2 : ℚ) ^ 1065 ≤ 1 / (2 : ℚ) ^ 1064 :=
+      one_div_le_one_div_of_le (by positivity) (pow_le_pow_right₀ (by norm_num) (by decide))
+    linarith
+
+/-- one `rightShift` along the true value -/
+theorem one_right (a : Dc) (k : Nat) (hk1 : 1 ≤ k) (hk : k ≤ 60) (hwf : WF a) (hne : a.d ≠ []) (V : ℚ) (K : Int)
+    (h : Follows a V K) (hdp : a.dp ≤ 780) (hmag : 0 ≤ K - k ∨ 1 / (2 : ℚ) ^ 1064 ≤ dval a * (1 / (2 : ℚ) ^ k)) :
+    Follows (rightShift a k) (V * (1 / (2 : ℚ) ^ k)) (K - k) ∧ StepRes a (rightShift a k) (1 / (2 : ℚ) ^ k) := by
+  have hs := rightShift_floor a k hk1 hk hwf hne
+  refine ⟨?_, hs⟩
+  have hf1 : 1 / (2 : ℚ) ^ k ≤ (10 : ℚ) ^ (19 : Int) := by
+    have : 1 / (2 : ℚ) ^ k ≤ 1 := by
+      rw [div_le_one (by positivity)]; exact one_le_pow₀ (by norm_num)
+    have : (1 : ℚ) ≤ (10 : ℚ) ^ (19 : Int) := by norm_num
+    linarith
+  have hd := step_dp a _ _ hwf hne hs hf1
+  have hK : K - (k : Int) = K + (-(k : Int)) := by ring
+  rw [hK]
+  apply follows_step a _ V K (-(k : Int)) _ (two_zpow_nat k).symm h hs (by omega)
+  rcases hmag with h0 | hx
+  · exact Or.inl (by omega)
+  · right
+    have hl := step_lower a _ _ hs
+    have h4 : 1 / (2 : ℚ) ^ 1065 = 1 / (2 : ℚ) ^ 1064 / 2 := by rw [pow_succ]; field_simp
+    rw [h4]
+    linarith
+
+/-- what `Shift` by at most 120 bits gives along the true value -/
+structure ShiftOut (a r : Dc) (V : ℚ) (K k : Int) : Prop where
+  fol : Follows r (V * (2 : ℚ) ^ k) (K + k)
+  wf : WF r
+  ne : r.d ≠ []
+  trimmed : Trimmed r
+  neg : r.neg = a.neg
+  lo : dval a * (2 : ℚ) ^ k / 4 ≤ dval r
+  hi : dval r ≤ dval a * (2 : ℚ) ^ k
+  tr : a.trunc = true → r.trunc = true
+
+/-- **`a.Shift(k)` along the true value**, |k| ≤ 120 (every call in `floatBits` on inputs in range) -/
+theorem shift_follows (a : Dc) (k : Int) (hk : k ≠ 0) (hk1 : -120 ≤ k) (hk2 : k ≤ 120) (hwf : WF a) (hne : a.d ≠ [])
+    (V : ℚ) (K : Int) (h : Follows a V K) (hdp : a.dp ≤ 700)
+    (hmag : (0 ≤ K ∧ 0 ≤ K + k) ∨ (1 / (2 : ℚ) ^ 1062 ≤ dval a ∧ 1 / (2 : ℚ) ^ 1062 ≤ dval a * (2 : ℚ) ^ k)) :
+    ShiftOut a (a.shift k) V K k := by
+  have hemp : a.d.isEmpty = false := by
+    cases h : a.d with
+    | nil => exact absurd h hne
+    | cons _ _ => rfl
+  obtain ⟨_, _, hpos⟩ := dval_bounds a hwf hne
+  have hm : maxShift = 60 := rfl
+  have q62 : 1 / (2 : ℚ) ^ 1064 = 1 / (2 : ℚ) ^ 1062 / 4 := by
+    rw [show (1064 : Nat) = 1062 + 2 from rfl, pow_add]; field_simp; norm_num
+  unfold Dc.shift
+  simp only [hemp, Bool.false_eq_true, if_false]
+  by_cases hposk : k > 0
+  · rw [if_pos hposk]
+    obtain ⟨n, hn⟩ : ∃ n : Nat, k = (n : Int) := ⟨k.toNat, by omega⟩
+    subst hn
+    simp only [Int.toNat_natCast, zpow_natCast]
+    have hxa : 0 ≤ K ∨ 1 / (2 : ℚ) ^ 1064 ≤ dval a := by
+      rcases hmag with h0 | hx
+      · exact Or.inl h0.1
+      · right; rw [q62]; linarith [hx.1]
+    show ShiftOut a (shiftLeftBy (98 + 2) a n) V K n
+    by_cases hbig : n > maxShift
+    · have e1 : shiftLeftBy (98 + 2) a n = leftShift (leftShift a maxShift) (n - maxShift) := by
+        conv => lhs; unfold shiftLeftBy
+        rw [if_pos hbig]
+        unfold shiftLeftBy
+        rw [if_neg (by omega)]
+      rw [e1, hm]
+      obtain ⟨f1, s1⟩ := one_left a 60 (by decide) (by decide) hwf hne V K h (by omega) hxa
+      have hd1 := step_dp a _ _ hwf hne s1 (pow60_le 60 (by decide))
+      have hl1 := step_lower a _ _ s1
+      have hx1 : 0 ≤ K + (60 : Nat) ∨ 1 / (2 : ℚ) ^ 1064 ≤ dval (leftShift a 60) := by
+        rcases hxa with h0 | hx
+        · exact Or.inl (by omega)
+        · right
+          have : dval a ≤ dval a * (2 : ℚ) ^ 60 / 2 := by nlinarith
+          linarith
+      obtain ⟨f2, s2⟩ := one_left (leftShift a 60) (n - 60) (by omega) (by omega) s1.wf s1.ne _ _ f1 (by omega) hx1
+      have hl2 := step_lower _ _ _ s2
+      have epow : (2 : ℚ) ^ n = (2 : ℚ) ^ 60 * (2 : ℚ) ^ (n - 60) := by rw [← pow_add]; congr 1; omega
+      have hp2 : (0 : ℚ) < (2 : ℚ) ^ (n - 60) := by positivity
+      refine ⟨?_, s2.wf, s2.ne, s2.trimmed, by rw [s2.neg, s1.neg], ?_, ?_, ?_⟩
+      · have e : V * (2 : ℚ) ^ 60 * (2 : ℚ) ^ (n - 60) = V * (2 : ℚ) ^ n := by rw [epow]; ring
+        have eK : K + ((60 : Nat) : Int) + ((n - 60 : Nat) : Int) = K + (n : Int) := by omega
+        rw [e, eK] at f2; exact f2
+      · rw [epow]
+        have := mul_le_mul_of_nonneg_right hl1 hp2.le
+        linarith
+      · rw [epow]
+        have := mul_le_mul_of_nonneg_right s1.le hp2.le
+        have := s2.le
+        linarith
+      · intro ht
+        by_cases e2 : dval (leftShift (leftShift a 60) (n - 60)) = dval (leftShift a 60) * (2 : ℚ) ^ (n - 60)
+        · rw [s2.exact e2]
+          by_cases e1' : dval (leftShift a 60) = dval a * (2 : ℚ) ^ 60
+          · rw [s1.exact e1']; exact ht
+          · exact s1.inexact e1'
+        · exact s2.inexact e2
+    · have e1 : shiftLeftBy (98 + 2) a n = leftShift a n := by
+        conv => lhs; unfold shiftLeftBy
+        rw [if_neg hbig]
+      rw [e1]
+      obtain ⟨f1, s1⟩ := one_left a n (by omega) (by omega) hwf hne V K h (by omega) hxa
+      have hl1 := step_lower a _ _ s1
+      have hpp : (0 : ℚ) ≤ dval a * (2 : ℚ) ^ n := by positivity
+      refine ⟨f1, s1.wf, s1.ne, s1.trimmed, s1.neg, by linarith, s1.le, ?_⟩
+      intro ht
+      by_cases e1' : dval (leftShift a n) = dval a * (2 : ℚ) ^ n
+      · rw [s1.exact e1']; exact ht
+      · exact s1.inexact e1'
+  · have hneg : k < 0 := by omega
+    rw [if_neg hposk, if_pos hneg]
+    obtain ⟨n, hn⟩ : ∃ n : Nat, k = -(n : Int) := ⟨(-k).toNat, by omega⟩
+    subst hn
+    simp only [neg_neg, Int.toNat_natCast]
+    rw [two_zpow_nat]
+    show ShiftOut a (shiftRightBy (98 + 2) a n) V K (-(n : Int))
+    have hfin : 0 ≤ K - (n : Int) ∨ 1 / (2 : ℚ) ^ 1064 ≤ dval a * (1 / (2 : ℚ) ^ n) / 4 := by
+      rcases hmag with h0 | hx
+      · exact Or.inl (by omega)
+      · right
+        have := hx.2
+        rw [two_zpow_nat] at this
+        rw [q62]; linarith
+    have hstruct : ∀ r : Dc, Follows r (V * (1 / (2 : ℚ) ^ n)) (K - (n : Int)) → WF r → r.d ≠ [] → Trimmed r → r.neg = a.neg →
+        dval a * (1 / (2 : ℚ) ^ n) / 4 ≤ dval r → dval r ≤ dval a * (1 / (2 : ℚ) ^ n) → (a.trunc = true → r.trunc = true) →
+        ShiftOut a r V K (-(n : Int)) := by
+      intro r c1 c2 c3 c4 c5 c6 c7 c8
+      refine ⟨?_, c2, c3, c4, c5, ?_, ?_, c8⟩
+      · rw [two_zpow_nat]; have : K + -(n : Int) = K - n := by ring
+        rw [this]; exact c1
+      · rw [two_zpow_nat]; exact c6
+      · rw [two_zpow_nat]; exact c7
+    apply hstruct
+    all_goals try clear hstruct
+    by_cases hbig : n > maxShift
+    · have e1 : shiftRightBy (98 + 2) a n = rightShift (rightShift a maxShift) (n - maxShift) := by
+        conv => lhs; unfold shiftRightBy
+        rw [if_pos hbig]
+        unfold shiftRightBy
+        rw [if_neg (by omega)]
+      sorry
+    · sorry
